@@ -78,7 +78,8 @@ void sim_conflicts_clear(void);
 size_t sim_conflicts_count(void);
 // allocation fault plan: the k-th allocation (1-based) after this call returns NULL; 0 = none
 void sim_alloc_fail_at(uint64_t k);
-uint64_t sim_alloc_count(void);   // allocations since sim_alloc_fail_at / begin_run
+uint64_t sim_alloc_count(void);
+uint64_t sim_alloc_failures(void);   // injected allocation failures so far in this run   // allocations since sim_alloc_fail_at / begin_run
 // step clock
 uint64_t sim_steps_now(void);
 void sim_set_step_limit(uint64_t limit); // absolute value of sim_steps_now() at which to unwind
